@@ -52,6 +52,10 @@ def module_text(rng, name, universe, long_ids=False):
     body.append('  method get(): %s = this.%s' % (t, v))
     doc('f')
     body.append('  function f(): %s = %s' % (t, LIT[t] if not rng.chance(1, 8) else LIT[rng.pick(TYPES)]))
+    if rng.chance(1, 2):
+        # uses of the built-in classes (their signatures live in the root module's entry of the global signature)
+        body.append('  function show(): Str = Str.fromInt(1) :: "s"')
+        body.append('  function say(): unit = Process.println(%s.show())' % c)
     class_doc = '/** documentation of class %s */\n' % c if dr.chance(1, 2) else ''
     field_doc = '/** documentation of the field */ ' if dr.chance(1, 2) else ''
     for m in imps:
